@@ -56,7 +56,7 @@ def build():
         ],
         "checks": checks,
         "not_applicable": na,
-        "notes": "exit codes of bin/check: 0 = held on everything explored (KNOWN-FINDING lines possible), 1 = VIOLATION (natively replayed), 2 = inconclusive (timeout / solver error / vacuous harness / counterexample that does not reproduce natively) - never reported as success.",
+        "notes": "exit codes of bin/check: 0 = held on everything explored (KNOWN-FINDING lines possible), 1 = VIOLATION (natively replayed), 2 = inconclusive (timeout / solver error / vacuous harness / counterexample that does not reproduce natively) - never reported as success. Stated gap: the function bodies engine T generates contain no return_call*, so C16/C17/C22 make no claim about functions that leave through a tail call (seed C17c, DESIGN.md section 8).",
     }
     return m
 
